@@ -493,8 +493,12 @@ func c12AllCheck(env *core.Env, w *c12Case) core.Verdict {
 	if u.Exit != 0 {
 		return core.Viol("update-all-fails", "update --all failed on a valid tree: %s", describe(u))
 	}
+	textBefore := ""
 	for _, mode := range [][]string{nil, {"-o", "github"}} {
 		cm := cli(env, root, nil, append(append([]string{}, mode...), "regex", "compare", "--all")...)
+		if mode == nil {
+			textBefore = string(cm.Stdout)
+		}
 		if cm.Exit != 0 || strings.Contains(string(cm.Stdout), "has changed") {
 			return core.Viol("compare-all-after-update", "compare --all %v reports a change right after update --all: %s", mode, describe(cm))
 		}
@@ -528,9 +532,10 @@ func c12AllCheck(env *core.Env, w *c12Case) core.Verdict {
 	if gh.Exit == 0 {
 		return core.Viol("compare-all-github-misses-edit", "compare --all -o github exits 0 although a stored operand differs from the generated regex (%s)\n%s", where, describe(gh))
 	}
+	// wording-independent: what compare --all prints about the rule must differ from what it printed before the edit
 	tx := cli(env, root, nil, "regex", "compare", "--all")
-	if !strings.Contains(string(tx.Stdout), "Regex of "+t.ID+" has changed") {
-		return core.Viol("compare-all-misses-edit", "compare --all does not report rule %s as changed (%s)\n%s", t.ID, where, describe(tx))
+	if about(string(tx.Stdout), t.ID) == about(textBefore, t.ID) {
+		return core.Viol("compare-all-misses-edit", "compare --all prints the same about rule %s before and after its stored operand was edited (%s)\n%s", t.ID, where, describe(tx))
 	}
 	sg := cli(env, root, nil, "regex", "compare", t.Key)
 	if sg.Exit == 0 {
@@ -539,6 +544,17 @@ func c12AllCheck(env *core.Env, w *c12Case) core.Verdict {
 	v.Nontrivial = len(targets) >= 2
 	v.Counts["edits_detected"] = 1
 	return v
+}
+
+// about returns the lines of a report that mention the rule id, in order.
+func about(out, id string) string {
+	var ls []string
+	for _, l := range strings.Split(out, "\n") {
+		if strings.Contains(l, id) {
+			ls = append(ls, l)
+		}
+	}
+	return strings.Join(ls, "\n")
 }
 
 func rulesCases(env *core.Env, rng *rand.Rand, q, t int) []core.Case {
